@@ -528,3 +528,45 @@ def rule_accum(cx, tier):
     r.analysed = {"checked_multiplications": n_mul}
     r.floor("checked multiplications scanned", n_mul, 10)
     return r
+
+
+# ---------------------------------------------------------------------------------------------
+# R-FLOAT-NOTATION
+
+def rule_float_notation(cx, tier):
+    """R-FLOAT-NOTATION: floats reach text through Display, never through a notation-switching formatter."""
+    import re
+    r = RuleResult("R-FLOAT-NOTATION",
+                   "no f64 / f32 is handed to `{:?}`, `{:e}` or `{:E}` in the runtime, core library, CLI or serde crates: "
+                   "f64's Debug switches to scientific notation below 1e-4 and from 1e16 up, Display (with or without a "
+                   "precision) never does, and the language prints numbers in positional notation")
+    CRATES = ("koto_runtime", "koto", "koto_serde", "koto_json", "koto_yaml", "koto_toml", "koto_cli", "koto_parser")
+    seen = 0
+    floats = 0
+    for fn in cx.F.fns.values():
+        if fn.crate.uname not in CRATES or " as Debug>" in fn.qual:
+            continue
+        for c in fn.calls():
+            s = c.short or ""
+            m = re.match(r"Argument::(new_debug|new_lower_exp|new_upper_exp|new_display)$", s)
+            if not m or not c.ga:
+                continue
+            kind = m.group(1)
+            ty = (c.ga_str(0) or "").replace("&", "").replace("mut ", "").strip()
+            if kind == "new_display":
+                if ty in ("f64", "f32"):
+                    floats += 1
+                continue
+            seen += 1
+            if ty in ("f64", "f32"):
+                r.instances += 1
+                r.nontrivial += 1
+                r.add(Finding("R-FLOAT-NOTATION", fn.qual, f"{kind}:{ty}",
+                              f"a {ty} is formatted with {'{:?}' if kind == 'new_debug' else '{:e}'}: values below 1e-4 or "
+                              f"from 1e16 up come out in scientific notation (`1e16`, `1e-5`) instead of the positional "
+                              f"digits the language prints", fn.file, c.line))
+    r.instances += floats
+    r.floor("Debug / exponent format arguments seen (any type; shows the detector sees fmt arguments)", seen, 3)
+    r.floor("floats formatted through Display", floats, 2)
+    r.analysed = {"debug_or_exp_arguments": seen, "float_display_arguments": floats}
+    return r
